@@ -1086,7 +1086,9 @@ PROPS = {
                     'uniform child kinds, no empty node, node size limits) must all accept, on every path.',
         functions=['_OOBTree.so: _BTree_set, BTree_grow, BTree_split, BTree_split_root, _BTree_clear, bucket_split, '
                    'BTree_deleteNextBucket, BTree_check_inner', 'BTrees._base._Tree._set/_del/_grow/_split/_split_root/_check',
-                   'BTrees.check.Checker'],
+                   'BTrees.check.Checker',
+                   '_IIBTree/_OIBTree/_IFBTree/_LLBTree.so: _BTree_set / _bucket_set / update / constructor / setdefault with '
+                   'accepted and rejected keys and values (conversion failure after the tree made room for the entry)'],
         assumptions=COMMON_ASSUME,
     ),
     'C02': dict(
